@@ -191,7 +191,16 @@ def update_signature_args(
         param = sig.parameters[name]
         typ = arg_types.get(name)
         typ = inspect.Parameter.empty if typ is None else typ
-        is_self = has_self and arg_idx == 0
+        # the receiver is the first positional parameter, if there is one
+        is_self = (
+            has_self
+            and arg_idx == 0
+            and param.kind
+            in (
+                inspect.Parameter.POSITIONAL_ONLY,
+                inspect.Parameter.POSITIONAL_OR_KEYWORD,
+            )
+        )
         annotated = param.annotation is not inspect.Parameter.empty
         if (
             annotated
